@@ -13,7 +13,7 @@ The emitters, get_nodes/compute and the module-level default scale's use after c
 """
 import z3
 
-from pyvc.values import Str, NONE, Num, RefS, RealS, IntS
+from pyvc.values import Str, NONE, Num, RefS, RealS, IntS, Bool
 
 TYPES = {}
 SPECFUNS = {}
@@ -134,3 +134,166 @@ for _d in ("up", "down", "left", "right"):
                     ("solver_width_is_drawn_extent_along_the_axis", "forall(lambda j: implies(0 <= j < len(result), result[j].width == %s))"
                      % ("result[j].h" if _vert else "result[j].w"))],
     }
+
+
+# ---------------------------------------------------------------------------------------------------- TikZ emitters (C07, C09)
+# The TikZ back-end writes plain text lines into a list, which the string model (A-STR) reaches; the SVG back-end builds an
+# ElementTree and stays bounded (drivers c07-c09 parse both).  Loop-free harnesses: every number is symbolic, the node list has
+# a stated concrete shape.
+def _tex_obj(direction, extra=None, fields=None):
+    opts = {"initialWidth": "real", "initialHeight": "real",
+            "margin": {"$dict": {"left": "real", "right": "real", "top": "real", "bottom": "real"}},
+            "latex": {"$dict": {"axisThickness": lambda E, P, name: Str(["thick"]), "linkThickness": lambda E, P, name: Str(["thin"])}},
+            "dotRadius": "real", "direction": lambda E, P, name: Str([direction])}
+    opts.update(extra or {})
+    f = {"direction": lambda E, P, name: Str([direction]), "options": {"$dict": opts}}
+    f.update(fields or {})
+    return {"$obj": ("timeline", "TimelineTex"), "fields": f}
+
+
+_IW = "(self.options['initialWidth'] - self.options['margin']['left'] - self.options['margin']['right'])"
+_IH = "(self.options['initialHeight'] - self.options['margin']['top'] - self.options['margin']['bottom'])"
+for _d in ("up", "down", "left", "right"):
+    _vert = _d in ("left", "right")
+    # C07: the axis line runs from the origin of the main layer over the FULL inner length (the range the scale maps onto)
+    CONTRACTS["timeline.TimelineTex.add_timeline@%s" % _d] = {
+        "props": ["C07", "C09"], "inline": True, "func_alias": "timeline.TimelineTex.add_timeline",
+        "params": {"self": _tex_obj(_d), "doc": ["list"]},
+        "ensures": [("five_lines", "len(doc) == 5"),
+                    ("axis_line_over_the_full_inner_length",
+                     ("doc[2] == '\\\\draw[thick] (0, 0) -- (0, %%i);' %% %s" % _IH) if _vert else ("doc[2] == '\\\\draw[thick] (0, 0) -- (%%i, 0);' %% %s" % _IW))],
+    }
+    # the main layer is shifted so that the axis origin sits where the SVG back-end's translate() puts it
+    _shift = {"right": ("0", "0"), "down": ("0", "0"), "left": (_IW, "0"), "up": ("0", _IH)}[_d]
+    CONTRACTS["timeline.TimelineTex.add_main@%s" % _d] = {
+        "props": ["C09"], "inline": True, "func_alias": "timeline.TimelineTex.add_main",
+        "params": {"self": _tex_obj(_d), "doc": ["list"]},
+        "ensures": [("two_lines", "len(doc) == 2"),
+                    ("shift_of_the_main_layer", "doc[1] == '\\\\begin{scope}[shift={(%%i, %%i)}]' %% (%s, %s)" % _shift)],
+    }
+
+# one opaque text atom stands for the per-datum macro suffix int2name(i) (its own contract: contracts/utils.py, C20)
+SPECFUNS["MACRO_ID"] = lambda E, P, ctx: [(P, Str([("sym", "ID")]))]
+_ID_SUMMARY = {"requires": [], "modifies": [], "returns": lambda E, Q: Str([("sym", "ID")]), "ensures": []}
+_TWO_NODES = ["self.nodes[0] is not None and self.nodes[0].parent is None",
+              # the second datum was pushed to layer 1: it owns one stub, which carries its data position (Node.createStub)
+              "self.nodes[1] is not None and self.nodes[1].parent is not None and self.nodes[1].parent.parent is None",
+              "self.nodes[1].parent.idealPos == self.nodes[1].idealPos"]
+_DOT = "'\\\\draw node [circle, inner sep=0pt, minimum size=%%sbp, \\nfill=dotColor%%s] at %s {};' %% (str(2 * self.options['dotRadius']), MACRO_ID(), %s)"
+for _d in ("up", "down", "left", "right"):
+    _at = "(0, %f)" if _d in ("left", "right") else "(%f, 0)"
+    # C07: one dot per datum, ON the axis line (the other coordinate is the literal 0), at the datum's own data position
+    CONTRACTS["timeline.TimelineTex.add_dots@%s" % _d] = {
+        "props": ["C07", "C09"], "heap": True, "inline": True, "func_alias": "timeline.TimelineTex.add_dots",
+        "params": {"self": _tex_obj(_d, fields={"nodes": ["list", "ref:Node", "ref:Node"]}), "doc": ["list"]},
+        "requires": list(_TWO_NODES), "modifies": [],
+        "callee_contracts": {"utils.int2name": _ID_SUMMARY},
+        "ensures": [("one_dot_per_datum", "len(doc) == 2 + 2 + 2"),
+                    ("dot_0_on_the_axis_at_its_data_position", "doc[2] == " + _DOT % (_at, "self.nodes[0].idealPos")),
+                    ("dot_1_on_the_axis_at_its_data_position", "doc[3] == " + _DOT % (_at, "self.nodes[1].idealPos"))],
+    }
+
+
+# ---- add_links: the step list of Renderer.generatePath (its own contract: contracts/renderer.py) is turned into \draw commands.
+# Harness: ONE datum in layer 1 - move, curve, line, curve (every kind of step, a line followed by a curve) - with symbolic numbers.
+def _gp(k):
+    return Num(z3.Real("gp_%d" % k), False)
+
+
+def _gp_steps(E, Q):
+    f = lambda k: ("fmt", ".8f", _gp(k))
+    def step(letter, ks):
+        parts = [letter + " "]
+        for i, k in enumerate(ks):
+            if i:
+                parts.append(" ")
+            parts.append(f(k))
+        return Str(parts)
+    return Q.new("list", (step("M", [0, 1]), step("C", [2, 3, 4, 5, 6, 7]), step("L", [8, 9]), step("C", [10, 11, 12, 13, 14, 15])))
+
+
+SPECFUNS["GP"] = lambda E, P, ctx, k: [(P, _gp(E.cint(k)))]
+_GENPATH_SUMMARY = {"requires": [], "modifies": [], "returns": _gp_steps, "ensures": []}
+_F = "'%.8f' % GP({})".format
+_CURVE = "'\\\\draw[color=linkColor%s, thin] (%s, %s) .. controls\\n(%s, %s) and (%s, %s) .. (%s, %s);' % (MACRO_ID(), {})"
+_LINE = "'\\\\draw[color=linkColor%s, thin] (%s, %s) -- (%s, %s);' % (MACRO_ID(), {})"
+_LINKS_TEXT = " + '\\n' + ".join([
+    # curve: from the point of the move to the end of the first curve
+    _CURVE.format(", ".join(_F(k) for k in (0, 1, 2, 3, 4, 5, 6, 7))),
+    # line: starts where the curve ENDED (6, 7)
+    _LINE.format(", ".join(_F(k) for k in (6, 7, 8, 9))),
+    # curve: starts where the line ENDED (8, 9) - the path is continuous
+    _CURVE.format(", ".join(_F(k) for k in (8, 9, 10, 11, 12, 13, 14, 15)))])
+CONTRACTS["timeline.TimelineTex.add_links"] = {
+    "props": ["C07", "C09"], "heap": True, "inline": True,
+    "params": {"self": _tex_obj("up", fields={"nodes": ["list", "ref:Node"], "renderer": {"$obj": ("renderer", "Renderer"), "fields": {}}}),
+               "doc": ["list"]},
+    "requires": ["self.nodes[0] is not None"], "modifies": [],
+    "callee_contracts": {"utils.int2name": _ID_SUMMARY, "renderer.Renderer.generatePath": _GENPATH_SUMMARY},
+    "ensures": [("one_link_per_datum", "len(doc) == 2 + 1 + 2"),
+                ("continuous_path_through_the_steps_in_order", "doc[2] == " + _LINKS_TEXT)],
+}
+
+
+# ---- add_labels: one box per datum, its origin at nodePos (printed with %i: the 1-unit truncation of C08/C09), its size the
+# node's w x h (what get_nodes computed), colours and text macro of THAT datum.  Harness: two laid-out data, no border.
+def _laid_out(E, P, env):
+    from contracts.renderer import _set_flags
+    for n in P.get(P.get(env["self"])["nodes"]):
+        _set_flags(E, P, n)
+    return [(P, env)]
+
+
+from contracts.renderer import NODEPOS_POST as _NP
+_BOX = ("'\\\\fill[color=labelBgColor%s, rounded corners=2pt]\\n(0, 0) rectangle (%s, %s) node[midway, yshift=-.75bp, anchor=center, "
+        "text=labelTextColor%s] {{\\\\strut %s}};' % (MACRO_ID(), str({n}.w), str({n}.h), MACRO_ID(), '\\\\text' + MACRO_ID())")
+for _d in ("up", "down", "left", "right"):
+    def _origin(n, _d=_d):
+        return "'\\\\begin{scope}[shift={(%%i, %%i)}]' %% (%s, %s)" % tuple(e.replace("d.", n + ".") for e in _NP[_d])
+    CONTRACTS["timeline.TimelineTex.add_labels@%s" % _d] = {
+        "props": ["C08", "C09", "C07"], "heap": True, "inline": True, "func_alias": "timeline.TimelineTex.add_labels",
+        "params": {"self": _tex_obj(_d, extra={"showBorder": lambda E, P, name: Bool(z3.BoolVal(False))},
+                                    fields={"nodes": ["list", "ref:Node", "ref:Node"]}), "doc": ["list"]},
+        "setup": _laid_out,
+        "requires": ["self.nodes[0] is not None and self.nodes[1] is not None",
+                     "self.nodes[0].data is not None and self.nodes[0].data.text is not None and self.nodes[1].data is not None and self.nodes[1].data.text is not None"],
+        "modifies": [], "callee_contracts": {"utils.int2name": _ID_SUMMARY},
+        "ensures": [("one_box_per_datum", "len(doc) == 2 + 3 * 2 + 2"),
+                    ("box_0_origin", "doc[2] == " + _origin("self.nodes[0]")), ("box_0_size_colours_text", "doc[3] == " + _BOX.format(n="self.nodes[0]")),
+                    ("box_1_origin", "doc[5] == " + _origin("self.nodes[1]")), ("box_1_size_colours_text", "doc[6] == " + _BOX.format(n="self.nodes[1]"))],
+    }
+
+
+# ---- add_header_colors: every per-datum colour macro is defined from the colour option entry OF THAT DATUM (index i, cycling
+# through a list-valued option) under the macro name OF THAT DATUM.  Harness: three data, every colour option a list of two
+# literal colours (so the third datum cycles back to the first entry), border shown; int2name and hex2html are the real
+# functions, executed on these concrete values.
+def _colour_list(a, b):
+    return lambda E, P, name: P.new("list", (Str([a]), Str([b])))
+
+
+_COLS = {"dotColor": ("#112233", "#abc"), "labelBgColor": ("#445566", "#DEF"), "labelTextColor": ("#000000", "#fff"),
+         "linkColor": ("#778899", "#123"), "borderColor": ("#aabbcc", "#9f0")}
+_HTML = {"#112233": "112233", "#abc": "AABBCC", "#445566": "445566", "#DEF": "DDEEFF", "#000000": "000000", "#fff": "FFFFFF",
+         "#778899": "778899", "#123": "112233", "#aabbcc": "AABBCC", "#9f0": "99FF00"}
+_exp = []
+_line = 0
+for _name in ("dotColor", "labelBgColor", "labelTextColor", "linkColor", "borderColor"):
+    for _i in range(3):
+        _exp.append(("%s_of_datum_%d" % (_name, _i),
+                     "doc[%d] == '\\\\definecolor{%s%s}{HTML}{%s}'" % (_line, _name, "ABC"[_i], _HTML[_COLS[_name][_i % 2]])))
+        _line += 1
+    _line += 1          # the empty separator line
+CONTRACTS["timeline.TimelineTex.add_header_colors"] = {
+    "props": ["C09"], "heap": True, "inline": True,
+    "params": {"self": _tex_obj("up", extra=dict({k: _colour_list(*v) for k, v in _COLS.items()},
+                                                 showBorder=lambda E, P, name: Bool(z3.BoolVal(True))),
+                                fields={"nodes": ["list", "ref:Node", "ref:Node", "ref:Node"]}), "doc": ["list"]},
+    "requires": ["self.nodes[0] is not None and self.nodes[1] is not None and self.nodes[2] is not None",
+                 "self.nodes[0].data is not None and self.nodes[1].data is not None and self.nodes[2].data is not None"],
+    "modifies": [], "callee_contracts": {"utils.int2name": {"requires": [], "modifies": [], "ensures": [],
+                                            # int2name(0..2) == 'A', 'B', 'C' (contracts/utils.py proves the enumeration order)
+                                            "returns": lambda E, Q, args: Str(["ABC"[E.cint(args[0])]])},
+                         "utils.hex2html": {"inline": True}},
+    "ensures": [("five_blocks", "len(doc) == %d" % _line)] + _exp,
+}
